@@ -146,6 +146,23 @@ func generate(w *mon.W) {
 	for _, s := range seeds {
 		do(s)
 	}
+	// every token of every corpus program replaced by a degenerate one: an empty
+	// quoted name, empty strings, empty brackets, nothing
+	for _, s := range append(append([]string{}, seeds...),
+		"X | join kind=leftouter (Y | project a, b) on a, $left.b == $right.b | where f(a.b, c[1]) | render pie with (t = x.y)",
+		"let n = a.b; T | summarize c = count() by k.j, m = x % 2 | sort by k.j desc | as R | project R.k, z = -q.r") {
+		parts := gen.Lexemes(s)
+		if len(parts) > 80 {
+			continue
+		}
+		for i := range parts {
+			for _, rep := range []string{"``", "''", "\"\"", "()", "[]", "", "``.b", "a.``", "`` ``"} {
+				t := append([]string{}, parts...)
+				t[i] = rep
+				do(strings.Join(t, " "))
+			}
+		}
+	}
 	for _, kind := range gen.WideKinds {
 		for _, n := range append(append([]int{}, gen.WideSizes...), gen.WideSizesBig...) {
 			do(pqlref.Print(gen.Wide(kind, n), pqlref.Layout{Mode: 1}).Src)
